@@ -100,10 +100,13 @@ def one_program(seed, i):
     def hit(k, n=1):
         ev[k] = ev.get(k, 0) + n
 
+    special = i % 16 == 11      # stratum: comparison programs on NaN / inf / signed zeros (stable across seeds: 1 in 16)
     try:
-        p = scriptgen.generate(rng, n_stmts=rng.choice([3, 5, 8]))
+        p = scriptgen.generate_special(rng) if special else scriptgen.generate(rng, n_stmts=rng.choice([3, 5, 8]))
     except scriptgen.Bail:
         return {"status": "gen_bail", "events": {"gen_bail": 1}}
+    if special:
+        hit("special_value_programs")
     hit("generated")
     res = {"status": "ok", "viol": [], "events": ev, "features": sorted(p.features), "src": p.src}
     try:
@@ -152,6 +155,8 @@ def one_program(seed, i):
             if dtn == "INT64" and shape == ():
                 a = np.array(rng.choice([0, 1, 2, 3]), dtype=np.int64)
             vals.append(a)
+        if special:
+            vals = list(p.special_inputs[k])
         for variant, attrs in (("explicit", attr_all), ("defaults_omitted", attr_omit_defaults)):
             if variant == "defaults_omitted" and (not p.attrs or len(attr_omit_defaults) == len(attr_all)):
                 continue
@@ -162,7 +167,7 @@ def one_program(seed, i):
             except Exception as e:
                 hit("input_outside_domain")
                 continue
-            if any(r.dtype.kind == "f" and not np.isfinite(r).all() for r in ref):
+            if not special and any(r.dtype.kind == "f" and not np.isfinite(r).all() for r in ref):
                 hit("input_nonfinite_skipped")
                 continue
             results = {"numpy": ("ok", ref)}
